@@ -157,6 +157,7 @@ static void run_kernel(int ki, int thorough, double deadline, long long only_cas
     for (int i = 0; i < k->nv; i++) {
         r->var[i].skipped = !isa_ok[k->v[i].isa];
         r->var[i].first_case = -1;
+        r->var[i].soft_first_case = -1;
         if (only_var && !strcmp(only_var, k->v[i].name)) r->only_var = i;
     }
     const Driver *d = find_drv(k->drv);
@@ -169,6 +170,8 @@ static void run_kernel(int ki, int thorough, double deadline, long long only_cas
         printf("%s{\"name\":\"%s\",\"isa\":\"%s\",\"skipped\":%d,\"calls\":%llu,\"nontrivial\":%llu,\"mismatches\":%llu,\"first_case\":%lld,\"desc\":",
                i ? "," : "", k->v[i].name, ISAN[k->v[i].isa], v->skipped, v->calls, v->nontrivial, v->mism, v->first_case);
         json_str(v->mism ? v->desc : "");
+        printf(",\"soft\":%llu,\"soft_first_case\":%lld,\"soft_desc\":", v->soft, v->soft_first_case);
+        json_str(v->soft ? v->soft_desc : "");
         printf("}");
     }
     printf("]}\n");
@@ -224,7 +227,7 @@ int main(int argc, char **argv) {
             if (!strcmp(g_kerns[i].ptr, kn)) {
                 run_kernel(i, thorough, kc_now() + 3600, cs, vn, 1);
                 unsigned long long m = 0;
-                for (int j = 0; j < g_kerns[i].nv; j++) m += g_run.var[j].mism;
+                for (int j = 0; j < g_kerns[i].nv; j++) m += g_run.var[j].mism + g_run.var[j].soft;
                 return m ? 1 : 0;
             }
         fprintf(stderr, "unknown kernel %s\n", kn);
